@@ -49,3 +49,12 @@ class Ob:
     module: Optional[str] = None   # module in which `call` is evaluated
     replay_path: Optional[str] = None
     validated: int = 0             # native replays that agreed with the symbolic verdict
+
+
+def pick(pool, i: int):
+    """Return pool[i] by explicit branching so that a symbolic index forks into concrete values
+    (a symbolic subscript would yield a symbolic element and drag the solver through all code)."""
+    for j, item in enumerate(pool):
+        if i == j:
+            return item
+    raise IndexError(i)
